@@ -28,7 +28,7 @@ def main() -> None:
             warnings.simplefilter(job.get('warnings', 'ignore'))
             r = explore(fn, params, budget_s=job['budget_s'],
                         per_path_s=job.get('per_path_s', 60.0),
-                        n_samples=job.get('n_samples', 2))
+                        n_samples=job.get('n_samples', 2), traced=job.get('traced', True))
             out.update(r)
             # reachability: required assertion sites must have fired
             missing = [k for k in job.get('must_cover', []) if not r['covered'].get(k)]
